@@ -80,6 +80,9 @@ func (t *loopTr) copyTarget(s *ast.ExprStmt) types.Object {
 	if se, ok := dst.(*ast.SliceExpr); ok && se.High == nil && !se.Slice3 {
 		dst = se.X // a[:] of an array, or a window x[lo:]
 	}
+	if o := t.ifaceFieldOwner(dst); o != nil { // stage 11 (loops_iface.go): x.f[:] of a struct value
+		return o
+	}
 	return t.varOf(dst)
 }
 
@@ -91,6 +94,9 @@ func (t *loopTr) setupRecv() {
 		return
 	}
 	const shape = "the receiver of a translated method must be `c *T`, T a struct type of the package, and be used only as c.f"
+	if t.ifaceSetupRecv() { // stage 11 (loops_iface.go): a value receiver of a named integer or struct type
+		return
+	}
 	if len(fd.Recv.List) != 1 || len(fd.Recv.List[0].Names) != 1 || fd.Recv.List[0].Names[0].Name == "_" {
 		t.fail(fd, "%s", shape)
 	}
@@ -625,6 +631,9 @@ func (t *loopTr) prefixReslice(s *ast.AssignStmt, o types.Object, hi ast.Expr) [
 
 // copyStmt translates the statement `copy(dst, src)`.
 func (t *loopTr) copyStmt(s *ast.ExprStmt) []binding {
+	if bs, ok := t.ifaceCopyStmt(s); ok { // stage 11 (loops_iface.go)
+		return bs
+	}
 	o := t.copyTarget(s)
 	if o == nil {
 		t.fail(s, "unsupported statement %s", t.p.src(s))
